@@ -240,11 +240,14 @@ def check_instances(ctx: Ctx, insts: List[dict], rec: Recorder, rng: random.Rand
                                 results_violations(kwargs, length, call_chop.last_results):
                             ctx.violation(f"law:{clause}:{key}", f"{kwargs} on length {length} -> {res}: {clause}", replay)
                     # reversal: same count, reciprocal expansion (off ties only)
-                    if why is None and ("count" in pair or tag != "exact") and allowed is not None:
+                    both_ratios = "c2c_expansion" in pair and "total_expansion" in pair
+                    if why is None and ("count" in pair or tag != "exact" or both_ratios) and allowed is not None:
                         res2, err2, _ = call_chop(kwargs, length, rec, inverted=True)
+                        # two ratios: the exact instance sits on the rounding tie of log(total)/log(c2c), either side is fine
+                        same_count = int(res2[0]) in allowed if (both_ratios and err2 is None) else (err2 is None and int(res2[0]) == count)
                         if err2 is not None:
                             ctx.violation(f"invert-rejected:{key}", f"inverted {kwargs} raised {err2}", replay)
-                        elif int(res2[0]) != count or abs(float(res2[1]) * float(res[1]) - 1) > 1e-6:
+                        elif not same_count or abs(float(res2[1]) * float(res[1]) - 1) > 1e-6:
                             ctx.violation(f"invert:{key}", f"{kwargs}: ({res}) inverted gives ({res2})", replay)
         ctx.sample({"a": inst["a"], "p": inst["p"], "q": inst["q"], "n": n, "length": inst["length"]})
 
@@ -370,7 +373,7 @@ def run(ctx: Ctx) -> None:
                 "distinct by (a,p,q,n,pair,length tag)")
     consts = {"MaxA": "2" if ctx.tier == "quick" else "3", "MaxP": "3" if ctx.tier == "quick" else "4",
               "MaxN": "7" if ctx.tier == "quick" else "9"}
-    text = cfg_text("Spec", consts, ["ClosureComplete", "ClosureShort", "SumLaw", "EndLaw", "TwinLaw"], constraints=["Emit"])
+    text = cfg_text("Spec", consts, ["ClosureComplete", "ClosureShort", "SumLaw", "EndLaw", "TwinLaw", "ReverseLaw"], constraints=["Emit"])
     res = run_tlc("Chop", "chop.cfg", cfg_text=text, workers=1, timeout=600)
     ctx.add_tlc(res)
     insts = res.records
